@@ -6,7 +6,7 @@ import ast
 
 from ..engine.cfg import CFG, own_fragments, walk_fragment
 from ..engine.match import dotted, norm, func_body_stmts, kwarg, terminal, leaves_with
-from ..engine.srcmodel import AnalysisError
+from ..engine.srcmodel import AnalysisError, Func
 
 EXPLANATION = (
     "Guarded-operation, dominance and value-flow rules over "
@@ -52,6 +52,7 @@ def _check_main(run, P):
              "that raises ValueError", minimum=1)
     run.do(_map_call, run, P)
     run.do(_identity, run, P)
+    run.do(_candidates, run, P)
     run.do(_match, run, P)
 
 
@@ -236,6 +237,97 @@ def _identity(run, P):
         run.ob("C17.identity", m, calls[0] if calls else m.node, ok,
                construct=f"{name}: identity element {ident}, super().{name} as mapper",
                why="the identity of + is 0 and of * is 1")
+
+
+def _candidates(run, P):
+    """The set the unifier is built with is the set the pre-supplied bindings are
+    checked against, and on the default path the bound names have been taken
+    out of it before either use - wherever the loop over pre_match lives."""
+    from ..engine.cfg import own_fragments
+    f = P.func(f"{MOD}.match")
+    g = CFG(f.node)
+    ctors = [n for n in g.nodes if n.kind == "stmt" and any(
+        isinstance(x, ast.Call) and dotted(x.func) == "_ExtendedUnifier" for x in walk_fragment(n.ast))]
+    if len(ctors) != 1:
+        raise AnalysisError("match: _ExtendedUnifier(...) not found")
+    U = ctors[0]
+    call = [x for x in walk_fragment(U.ast) if isinstance(x, ast.Call)
+            and dotted(x.func) == "_ExtendedUnifier"][0]
+    if not (call.args and isinstance(call.args[0], ast.Name)):
+        raise AnalysisError("match: the unifier is not built from a plain name")
+    S = call.args[0].id
+    pm, bound = "pre_match", "bound_variable_names"
+    if pm not in f.params or bound not in f.params:
+        raise AnalysisError("match: parameters pre_match / bound_variable_names expected")
+
+    def assigns_S(n):
+        a = n.ast
+        if n.kind != "stmt":
+            return False
+        if isinstance(a, ast.Assign):
+            return any(isinstance(t, ast.Name) and t.id == S for t in a.targets)
+        if isinstance(a, ast.AugAssign):
+            return isinstance(a.target, ast.Name) and a.target.id == S
+        return False
+
+    # where are the pre-supplied names checked?  In match itself, or in a helper
+    checks = []
+    for n in g.nodes:
+        if n.kind == "test" and isinstance(n.ast, ast.Compare) and len(n.ast.ops) == 1 \
+                and isinstance(n.ast.ops[0], (ast.In, ast.NotIn)) \
+                and any(isinstance(lp, ast.For) and "items" in ast.unparse(lp.iter)
+                        and pm in ast.unparse(lp.iter)
+                        and any(n.label is y for y in ast.walk(lp)) for lp in ast.walk(f.node)):
+            checks.append((n, dotted(n.ast.comparators[0])))
+    if not checks:
+        for n in g.nodes:
+            if n.kind != "stmt":
+                continue
+            for x in walk_fragment(n.ast):
+                if isinstance(x, ast.Call) and isinstance(x.func, ast.Name) \
+                        and any(dotted(a) == pm for a in x.args):
+                    h = P.resolve_name(f, x.func.id)
+                    if not isinstance(h, Func):
+                        continue
+                    pidx = [i for i, a in enumerate(x.args) if dotted(a) == pm][0]
+                    hp = h.params[pidx]
+                    for t in ast.walk(h.node):
+                        if isinstance(t, ast.Compare) and len(t.ops) == 1 \
+                                and isinstance(t.ops[0], (ast.In, ast.NotIn)) \
+                                and isinstance(t.comparators[0], ast.Name) \
+                                and t.comparators[0].id in h.params \
+                                and any(isinstance(lp, ast.For) and hp in ast.unparse(lp.iter)
+                                        and any(t is y for y in ast.walk(lp)) for lp in ast.walk(h.node)):
+                            ai = h.params.index(t.comparators[0].id)
+                            if ai < len(x.args):
+                                checks.append((n, dotted(x.args[ai])))
+    if not checks:
+        raise AnalysisError("match: the check of pre_match names against the candidates not found")
+    cn, cset = checks[0]
+    later = [n for n in g.reachable([cn], follow_exc=False) if assigns_S(n)
+             and U in g.reachable([n], follow_exc=False)]
+    run.ob("C17.prematch", f, cn.ast if cn.ast is not None else f.node, cset == S and not later,
+           construct=f"pre-supplied names are checked against '{cset}', the set the unifier is built "
+                     f"with ('{S}'), and that set is not changed in between"
+                     + (f" (changed by {norm(later[0].ast, 50)})" if later else ""),
+           why="checked against the candidates before the bound names are taken out, a binding "
+               "for a bound variable is accepted instead of raising the documented error")
+    # default path: bound names subtracted before use
+    defaults = [n for n in g.nodes if assigns_S(n) and any(
+        isinstance(x, ast.Call) and (dotted(x.func) or "").endswith("get_variables")
+        for x in walk_fragment(n.ast))]
+    subs = [n for n in g.nodes if assigns_S(n) and bound in ast.unparse(n.ast)
+            and (isinstance(n.ast, ast.AugAssign) and isinstance(n.ast.op, ast.Sub)
+                 or any(isinstance(x, ast.BinOp) and isinstance(x.op, ast.Sub) for x in ast.walk(n.ast))
+                 or "difference" in ast.unparse(n.ast))]
+    if not defaults:
+        raise AnalysisError("match: default candidate set (variables of the template) not found")
+    ok = bool(subs) and U not in g.reachable(defaults, avoid=subs, follow_exc=False) \
+        and cn not in g.reachable(defaults, avoid=subs, follow_exc=False)
+    run.ob("C17.free", f, subs[0].ast if subs else defaults[0].ast, ok,
+           construct=f"default candidates: every path from '{norm(defaults[0].ast, 50)}' to the check "
+                     f"of pre_match and to the unifier takes out {bound}",
+           why="only variables that are not declared bound may be bound")
 
 
 def _match(run, P):
